@@ -598,13 +598,6 @@ fn trace_child(c: &IsoCase, a: &Pop, b: &Pop, rel: &Rel, w: &World, n: u64, obs:
     Ok(())
 }
 
-fn timing(t: &mut std::time::Instant, what: &str) {
-    if std::env::var_os("VERIF_C19_TIMING").is_some() {
-        eprintln!("c19 timing {what}: {:?}", t.elapsed());
-        *t = std::time::Instant::now();
-    }
-}
-
 fn wipe(base: &str, roots: &[&Path]) {
     for n in scan_shm(base) {
         let _ = std::fs::remove_file(format!("/dev/shm/{n}"));
@@ -672,7 +665,6 @@ pub fn run_case(c: &IsoCase, obs: &mut Obs, known: &Known, global_toml: &Path, s
 
     let dom_a = Domain::at(&p, &root_a);
     let dom_b = Domain::at(&q, &root_b);
-    let mut t = std::time::Instant::now();
     let result = (|| -> Result<(), Failure> {
         let mut a = match create_pop("A", dom_a, &c.a, None, &rel, &w, &roots) {
             Ok(p) => p,
@@ -682,7 +674,6 @@ pub fn run_case(c: &IsoCase, obs: &mut Obs, known: &Known, global_toml: &Path, s
             }
         };
         let r = (|| -> Result<(), Failure> {
-            timing(&mut t, "create A");
             check_location(&a, &w)?;
             let mut b = match create_pop("B", dom_b, &c.b, Some(&a), &rel, &w, &roots) {
                 Ok(p) => p,
@@ -705,10 +696,8 @@ pub fn run_case(c: &IsoCase, obs: &mut Obs, known: &Known, global_toml: &Path, s
                 if a.services.iter().any(|x| b.services.iter().any(|y| x.name == y.name && x.pattern == y.pattern)) {
                     obs.class("iso.same_service_in_both_domains");
                 }
-                timing(&mut t, "create B");
                 observe(&b, &a, &rel, "both populations exist", &w, &[], &[])?;
                 observe(&a, &b, &rel, "both populations exist", &w, &[], &[])?;
-                timing(&mut t, "observe x2");
                 a.probe_all(100, "pop.probe", "before any foreign action")?;
                 b.probe_all(200, "pop.probe", "before any foreign action")?;
                 // dead-node cleanup from B, then from A
@@ -724,12 +713,10 @@ pub fn run_case(c: &IsoCase, obs: &mut Obs, known: &Known, global_toml: &Path, s
                 cleanup(&mut a, &b, &rel, &w, &roots, obs)?;
                 observe(&b, &a, &rel, "after the dead-node cleanup in A", &w, &[], &[])?;
                 b.probe_all(201, "isolation.cleanup_breaks_foreign_service", "after the dead-node cleanup in domain A")?;
-                timing(&mut t, "probes, cleanups, observes");
                 // a whole application in domain B
                 let bf = scan_files(&roots);
                 let bs = scan_shm(&w.base);
                 trace_child(c, &a, &b, &rel, &w, n, obs)?;
-                timing(&mut t, "trace child");
                 if !rel.same_domain {
                     intact(&a, &bf, &bs, &w.base, "isolation.lifecycle_removes_foreign_resources", "an application life cycle in domain B")?;
                 }
@@ -762,7 +749,6 @@ pub fn run_case(c: &IsoCase, obs: &mut Obs, known: &Known, global_toml: &Path, s
         ensure!(stray.is_empty() && scan_shm(&w.sandbox_prefix).is_empty(), "location.global_config_used", "objects were created with the process-wide global configuration (root {}, prefix '{}') instead of the domain's: {stray:?} {:?}", w.sandbox_root.display(), w.sandbox_prefix, scan_shm(&w.sandbox_prefix));
         Ok(())
     });
-    timing(&mut t, "rest");
     wipe(&base, &roots);
     if scan_shm(sandbox_prefix).len() + scan_files(&[sandbox_root]).len() > 0 {
         wipe(sandbox_prefix, &[]);
@@ -855,7 +841,7 @@ pub fn pairs(ctx: &mut Ctx, known: &Known) {
         return;
     }
     // VERIF_C19_PAIRS: debugging aid (number of pairs instead of the tier value)
-    let total = std::env::var("VERIF_C19_PAIRS").ok().and_then(|v| v.parse().ok()).unwrap_or(ctx.scale(480u64, 12_000));
+    let total = std::env::var("VERIF_C19_PAIRS").ok().and_then(|v| v.parse().ok()).unwrap_or(ctx.scale(480u64, 4_800));
     let mine = ctx.share(total);
     let mut rng = ctx.rng(part);
     for i in 0..mine {
